@@ -1338,7 +1338,7 @@ def c08(tier, seed):
 def c16(tier, seed):
     """format stability = every constant / encoding is pinned to a definition that is not in the repo"""
     c17 = [o for o in PROPS['C17']['obligations'](tier, seed) if o.name in ('parity.split_find.contract', 'parity.split_find.lemma')]
-    return table_obs(tier) + crc_obs(tier) + stream_obs(['h_sgetb32', 'h_sgetb64', 'h_sgetble32', 'h_sgetbs', 'h_rt32', 'h_rt64', 'h_rtle32', 'h_rtbs']) + staterec_obs(tier) + elem_obs(tier) + c17 + hash_obs(tier) + main_obs()[:1] + frecord_obs() + blockruns_obs() + header_obs() + maprec_obs() + holeruns_obs() + linkrec_obs() + parityrec_obs()
+    return table_obs(tier) + crc_obs(tier) + stream_obs(['h_sgetb32', 'h_sgetb64', 'h_sgetble32', 'h_sgetbs', 'h_rt32', 'h_rt64', 'h_rtle32', 'h_rtbs']) + staterec_obs(tier) + elem_obs(tier) + c17 + hash_obs(tier) + main_obs()[:1] + frecord_obs() + blockruns_obs() + header_obs() + maprec_obs() + holeruns_obs() + linkrec_obs() + parityrec_obs() + [o for o in check_obs(tier) if o.name == 'check.blockcmp']
 
 
 def c04(tier, seed):
